@@ -49,6 +49,27 @@ Print Assumptions C05_pop_missing.
 
 (* the Spec: the removed key no longer resolves; a list loses exactly one element; the
    rest of the tree is the old tree (delete_at is replace_at of the parent) *)
+(* delete of a path that addresses nothing removes nothing: below a resolved prefix, an index outside the list
+   (on either side: norm_idx refuses z >= len and z < -len alike) or an unknown key makes delete raise, and the
+   tree it leaves behind is the tree it was given ([rest] arbitrary: further steps do not matter) *)
+Theorem C05_delete_index_out_of_range_changes_nothing :
+  forall fuel root x rc toks p c items y rest si z,
+  tokenize x = toks ++ y :: rest -> walk root toks p (Lst c items) ->
+  split_name_index y = Ok ([], IdxStr si) -> plain_idx si -> n0eval si = EvInt z ->
+  norm_idx (length items) z = None -> 2 * length toks + 1 <= fuel ->
+  delete fuel root x rc = (root, Some (Raise ExIndex)).
+Proof. exact delete_index_out_of_range. Qed.
+Print Assumptions C05_delete_index_out_of_range_changes_nothing.
+
+Theorem C05_delete_unknown_key_changes_nothing :
+  forall fuel root x rc toks p c kvs y rest k ix,
+  tokenize x = toks ++ y :: rest -> walk root toks p (Dict c kvs) ->
+  split_name_index y = Ok (k, ix) -> plain_key k -> lookup k kvs = None ->
+  2 * length toks + 1 <= fuel ->
+  exists e, delete fuel root x rc = (root, Some (Raise e)).
+Proof. exact delete_unknown_key. Qed.
+Print Assumptions C05_delete_unknown_key_changes_nothing.
+
 Theorem C05_removed_key_gone : forall (k : pstr) (kvs : list (pstr * tree)),
   NoDup (map fst kvs) -> lookup k (remove_key k kvs) = None.
 Proof. exact (@lookup_remove_key tree). Qed.
